@@ -411,6 +411,13 @@ Section Reader.
                 let? r2 := read_tuple C ids (match ids with [_] => true | _ => false end) r1 in
                 expect ")" r2
             | TDComposite fs =>
+              (* [Cow<T>] has no generated item: it is exemplified as an example of [T] *)
+              match (match path_ident (t_path t), t_params t with
+                     | Some "Cow", p0 :: _ => tp_ty p0
+                     | _, _ => None
+                     end) with
+              | Some inner => C inner ts
+              | None =>
                 let? p := observed_path id in
                 let? r1 := expects p ts in
                 match p with [] => None | _ =>
@@ -422,6 +429,7 @@ Section Reader.
                   | Some None => read_registry_shape C fs r1
                   end
                 end
+              end
             | TDVariant vs =>
                 (* [Option::None] may be written [None] *)
                 match ts, t_path t with
